@@ -610,3 +610,176 @@ Proof.
   - specialize (R eq_refl). unfold A in *. lia.
   - specialize (R eq_refl). unfold A in *. lia.
 Qed.
+
+(* ================================================================ *)
+(* C03: no over-read from an unbuffered source, on every outcome      *)
+(* ================================================================ *)
+(* how many bytes an operation takes from its reader, at most - whatever the outcome *)
+Definition cons {X} (m : M X) (k : N) : Prop :=
+  forall s x s', wf_c s -> m s = (x, s') ->
+    cshape s s' /\ (blen (rden (rd s)) <= blen (rden (rd s')) + k)%N /\ (is_ok x = true -> wf_c s').
+
+Lemma cons_bind {X Y} (m1 : M X) (m2 : X -> M Y) k1 k2 :
+  cons m1 k1 -> (forall v, cons (m2 v) k2) -> cons (mbind m1 m2) (k1 + k2).
+Proof.
+  intros H1 H2 s x s' Hw H. unfold mbind in H. destruct (m1 s) as [x1 s1] eqn:E1.
+  destruct (H1 _ _ _ Hw E1) as (S1 & C1 & W1).
+  destruct x1 as [v| | |]; try (injection H as <- <-; split; [exact S1|]; split; [lia|discriminate]).
+  destruct (H2 v _ _ _ (W1 eq_refl) H) as (S2 & C2 & W2).
+  split; [eapply cshape_trans; eassumption|]. split; [lia|exact W2].
+Qed.
+
+Lemma cons_weaken {X} (m : M X) k k' : (k <= k')%N -> cons m k -> cons m k'.
+Proof. intros Hk H s x s' Hw Hm. destruct (H _ _ _ Hw Hm) as (S & C & W). split; [exact S|]. split; [lia|exact W]. Qed.
+
+Lemma cons_ret {X} (a : X) : cons (mret a) 0.
+Proof. intros s x s' Hw H. unfold mret in H. injection H as <- <-. split; [apply cshape_refl|]. split; [lia|auto]. Qed.
+
+Lemma cons_charge n : cons (charge n) 0.
+Proof. intros s x s' Hw H. unfold charge in H. injection H as <- <-. split; [apply same_shape_refl|]. cbn [rd]. split; [lia|intros _; exact Hw]. Qed.
+
+Lemma cons_charge_fail {X} n : cons (let^ _ := charge n in @mfail X Err) 0.
+Proof.
+  intros s x s' Hw H. unfold mbind, charge, mfail in H. injection H as <- <-.
+  split; [apply same_shape_refl|]. cbn [rd]. split; [lia|discriminate].
+Qed.
+
+Lemma cons_read_n n : cons (c_read_n n) n.
+Proof.
+  intros s x s' Hw H. unfold c_read_n in H. destruct (readfull n (rd s)) as [x0 r'] eqn:Er. injection H as <- <-.
+  destruct Hw as [Hwr Hsc]. destruct (readfull_spec _ _ _ _ Hwr Er) as (W & Sh & Hok & Hshort).
+  split; [exact Sh|]. cbn [rd]. split.
+  - destruct (N.le_gt_cases n (blen (rden (rd s)))) as [Hle|Hgt].
+    + destruct (Hok Hle) as [_ Hd]. rewrite Hd, dropN_blen. lia.
+    + lia.
+  - intros _. apply wf_c_step; [split|..]; assumption.
+Qed.
+
+Lemma cons_read_byte : cons c_read_byte 1.
+Proof.
+  intros s x s' Hw H. unfold c_read_byte in H. destruct (readbyte (rd s)) as [x0 r'] eqn:Er. injection H as <- <-.
+  destruct Hw as [Hwr Hsc]. destruct (readbyte_any_spec _ _ _ Hwr Hsc Er) as [W Sh Hres].
+  split; [exact Sh|]. unfold with_rd. cbn [rd]. split.
+  - destruct (rden (rd s)) as [|y q]; [rewrite blen_nil; lia|]. destruct Hres as [_ Hd]. rewrite Hd, blen_cons. lia.
+  - intros _. apply wf_c_step; [split|..]; assumption.
+Qed.
+
+Lemma cons_read_num k : cons (c_read_num k) k.
+Proof. unfold c_read_num. eapply cons_weaken; [|apply (cons_bind _ _ _ _ (cons_read_n k) (fun b => cons_ret (unbe b 0)))]. lia. Qed.
+
+Lemma cons_read_tag : cons c_read_tag 3.
+Proof.
+  intros s x s' Hw H. unfold c_read_tag in H. destruct (negb (clast s =? 0)%N).
+  - injection H as <- <-. split; [apply same_shape_refl|]. cbn [rd]. split; [lia|intros _; exact Hw].
+  - exact (cons_read_num 3 _ _ _ Hw H).
+Qed.
+
+Lemma cons_expect_tag t : cons (c_expect_tag t) 3.
+Proof.
+  unfold c_expect_tag. eapply cons_weaken; [|apply (cons_bind _ _ _ 0 cons_read_tag)]; [lia|].
+  intros t'. destruct (negb (t =? t')%N && negb (t =? ANY_TAG)%N); [apply cons_charge_fail|apply cons_ret].
+Qed.
+
+Lemma cons_expect_type v : cons (c_expect_type v) 1.
+Proof.
+  unfold c_expect_type, c_read_type.
+  eapply cons_weaken; [|apply (cons_bind _ _ _ 0 (cons_bind _ _ _ _ cons_read_byte (fun x => cons_ret (b2n x))))]; [lia|].
+  intros x. destruct (x =? v)%N; [apply cons_ret|apply cons_charge_fail].
+Qed.
+
+(* the body of a structure takes at most its declared length from the enclosing reader, on every outcome *)
+Lemma cons_struct_body ty fl len : small_fl fl = true ->
+  cons (fun s3 : cstate =>
+          match c_dec_fields fl O len 0 0 (zeros_of fl) (push_nested len s3) with
+          | (Ok (vs, actual, nsum), dd) =>
+              let s4 := pop_nested (clast s3) dd in
+              if (actual =? len)%N then (Ok (VStruct ty vs, (8 + nsum)%N), s4)
+              else (Err, {| rd := rd s4; clast := clast s4; alloc := alloc s4 + K_ERR |})
+          | (ErrEOF, dd) => (ErrEOF, pop_nested (clast s3) dd)
+          | (Err, dd) => (Err, pop_nested (clast s3) dd)
+          | (OutOfFuel, dd) => (OutOfFuel, pop_nested (clast s3) dd)
+          end) len.
+Proof.
+  intros Hsm s3 x s' Hw H.
+  destruct (amort_struct_body ty fl len (proj1 (proj2 ledger_amortized) fl Hsm) _ _ _ Hw H) as [Sh HOk _].
+  split; [exact Sh|]. split; [|intros Hx; exact (proj1 (HOk Hx))].
+  (* what lies beyond the nested LimitedReader is untouched *)
+  set (n0 := push_nested len s3) in *.
+  assert (Hw0: wf_c n0).
+  { destruct Hw as [[Hwl Hsf] Hsc]. unfold n0, push_nested, wf_c, wf_reader, scannable. cbn [rd ls bs wf_layers].
+    split; [split; [|exact Hsf]|exact I]. split; [lia|]. split; [intros e He; discriminate|exact Hwl]. }
+  destruct (c_dec_fields fl O len 0 0 (zeros_of fl) n0) as [xf dd] eqn:Ef.
+  destruct (proj1 (proj2 ledger_amortized) fl Hsm 0%nat len 0%N 0%N (zeros_of fl) _ _ _ Hw0 Ef) as [Shd _ _].
+  unfold cshape, n0, push_nested in Shd. cbn [rd] in Shd.
+  destruct (nested_shape_inv _ _ _ _ Shd) as (sz & buf & err & n' & l'' & El & _ & Hdrop).
+  assert (Hs': rden (rd s') = den l'' (bs (rd dd))).
+  { destruct xf as [[[vs actual] nsum]| | |]; [destruct (actual =? len)%N|..]; injection H as _ <-;
+      unfold rden, pop_nested; cbn [rd ls bs]; rewrite El; reflexivity. }
+  rewrite Hs'. apply (f_equal blen) in Hdrop. rewrite !dropN_blen in Hdrop. unfold rden. lia.
+Qed.
+
+Theorem struct_no_overread ty fl a cur : (flist_len fl <=? NMAX)%N && small_fl fl = true ->
+  forall s x s', wf_c s -> c_dec_value (SStruct ty fl) a cur s = (x, s') ->
+    cshape s s' /\
+    exists len, (blen (rden (rd s)) <= blen (rden (rd s')) + 8 + len)%N /\
+                (8 <= blen (rden (rd s)) -> clast s = 0%N -> blen (rden (rd s)) <= blen (rden (rd s')) + 8 + unbe (firstn 4 (skipn 4 (rden (rd s)))) 0)%N.
+Proof.
+  intros Hsm s x s' Hw H. apply andb_prop in Hsm. destruct Hsm as [_ Hfl].
+  cbn [c_dec_value] in H.
+  (* run the header by hand: charge, tag, type, length *)
+  unfold mbind at 1 in H. unfold charge at 1 in H.
+  set (s1 := {| rd := rd s; clast := clast s; alloc := alloc s + (K_STRUCT + K_FIELD * flist_len fl) |}) in H.
+  assert (Hw1: wf_c s1) by exact Hw.
+  unfold mbind at 1 in H. destruct (c_expect_tag (fa_tag a) s1) as [x2 s2] eqn:E2.
+  destruct (cons_expect_tag _ _ _ _ Hw1 E2) as (S2 & C2 & W2). cbn [rd s1] in C2.
+  destruct x2 as [[]| | |]; try (injection H as <- <-; split; [exact S2|]; exists 0%N; split; [lia|intros; lia]).
+  unfold mbind at 1 in H. destruct (c_expect_type tc_structure s2) as [x3 s3] eqn:E3.
+  destruct (cons_expect_type _ _ _ _ (W2 eq_refl) E3) as (S3 & C3 & W3).
+  destruct x3 as [[]| | |]; try (injection H as <- <-; split; [exact (cshape_trans _ _ _ S2 S3)|]; exists 0%N; split; [lia|intros; lia]).
+  unfold mbind at 1 in H. destruct (c_read_num 4 s3) as [x4 s4] eqn:E4.
+  destruct (cons_read_num 4 _ _ _ (W3 eq_refl) E4) as (S4 & C4 & W4).
+  destruct x4 as [len| | |]; try (injection H as <- <-; split; [exact (cshape_trans _ _ _ S2 (cshape_trans _ _ _ S3 S4))|]; exists 0%N; split; [lia|intros; lia]).
+  destruct (cons_struct_body ty fl len Hfl _ _ _ (W4 eq_refl) H) as (S5 & C5 & _).
+  split; [exact (cshape_trans _ _ _ S2 (cshape_trans _ _ _ S3 (cshape_trans _ _ _ S4 S5)))|].
+  exists len. split; [lia|].
+  intros H8 Hl0.
+  (* the length that was read is the one at offset 4 of the input *)
+  assert (Hlen: len = unbe (firstn 4 (skipn 4 (rden (rd s)))) 0).
+  { (* tag: 3 bytes *)
+    unfold c_expect_tag, mbind in E2. destruct (c_read_tag s1) as [xt st] eqn:Et.
+    assert (Hrt: exists t, xt = Ok t /\ rden (rd st) = skipn 3 (rden (rd s)) /\ wf_c st).
+    { unfold c_read_tag in Et. replace (clast s1) with 0%N in Et by (symmetry; exact Hl0). cbn [N.eqb negb] in Et.
+      unfold c_iread_tag, c_read_num, mbind in Et. destruct (c_read_n 3 s1) as [xb sb] eqn:Eb.
+      unfold c_read_n in Eb. destruct (readfull 3 (rd s1)) as [xr r'] eqn:Er. injection Eb as <- <-.
+      destruct Hw1 as [Hwr Hsc]. destruct (readfull_spec _ _ _ _ Hwr Er) as (W & Sh & Hok & _).
+      destruct (Hok ltac:(cbn [rd s1]; lia)) as [-> Hd]. unfold mret in Et. injection Et as <- <-.
+      eexists. split; [reflexivity|]. cbn [rd]. split; [rewrite Hd, dropN_skipn; reflexivity|].
+      apply wf_c_step; [split|..]; assumption. }
+    destruct Hrt as (t & -> & Hdt & Hwt).
+    assert (Hst2: s2 = st).
+    { destruct (negb (fa_tag a =? t)%N && negb (fa_tag a =? ANY_TAG)%N).
+      - unfold charge, mfail in E2. discriminate.
+      - unfold mret in E2. injection E2 as <-. reflexivity. }
+    subst st.
+    (* type: 1 byte *)
+    unfold c_expect_type, c_read_type, mbind in E3. destruct (c_read_byte s2) as [xb sb] eqn:Eb.
+    unfold c_read_byte in Eb. destruct (readbyte (rd s2)) as [xr r'] eqn:Er. injection Eb as <- <-.
+    destruct Hwt as [Hwr Hsc]. destruct (readbyte_any_spec _ _ _ Hwr Hsc Er) as [W Sh Hres].
+    assert (Hlen2: (5 <= blen (rden (rd s2)))%N) by (rewrite Hdt; unfold blen in *; rewrite skipn_length; lia).
+    destruct (rden (rd s2)) as [|y q] eqn:Ed2; [rewrite blen_nil in Hlen2; lia|].
+    destruct Hres as [-> Hd3]. unfold mret in E3.
+    assert (Hs3: rd s3 = r').
+    { destruct (b2n y =? tc_structure)%N.
+      - injection E3 as <-. reflexivity.
+      - unfold charge, mfail in E3. discriminate. }
+    (* length: 4 bytes *)
+    unfold c_read_num, mbind in E4. destruct (c_read_n 4 s3) as [xl sl] eqn:El4.
+    unfold c_read_n in El4. destruct (readfull 4 (rd s3)) as [xr4 r4] eqn:Er4. injection El4 as <- <-.
+    destruct (W3 eq_refl) as [Hwr3 Hsc3]. destruct (readfull_spec _ _ _ _ Hwr3 Er4) as (_ & _ & Hok4 & _).
+    assert (Hq: rden (rd s3) = skipn 4 (rden (rd s))).
+    { rewrite Hs3, Hd3. assert (E: y :: q = skipn 3 (rden (rd s))) by congruence.
+      replace 4%nat with (1 + 3)%nat by reflexivity. rewrite <- skipn_skipn. rewrite <- E. reflexivity. }
+    destruct (Hok4 ltac:(rewrite Hq; unfold blen in *; rewrite skipn_length; lia)) as [-> _].
+    unfold mret in E4. injection E4 as <- _. rewrite Hq, takeN_firstn. reflexivity. }
+  rewrite <- Hlen. lia.
+Qed.
